@@ -3,6 +3,7 @@ Helper lemmas for property C05, part 7: evaluation of the (well-founded) model, 
 specification on concrete data, and a concrete world for the non-vacuity examples of Props/C05.lean.
 -/
 import GoderiveModel.Lemmas.DeepCopy.Clone
+import GoderiveModel.Lemmas.DeepCopy.Shape
 
 namespace Goderive
 namespace DeepCopy
@@ -77,6 +78,47 @@ theorem structEq_eval_map (K V : Ty) (x y : Val) :
       | .map _ xs, .map _ ys => xs.slen == ys.slen && entriesIn env K V xs ys
       | _, _ => false := structEq_map rfl x y
 
+open Spec in
+theorem shapeEq_eval_named (i : Nat) (x y : Val) (h : (env.under (.named i)).isNamed = false) :
+    shapeEq env (.named i) x y = shapeEq env (env.under (.named i)) x y :=
+  shapeEq_congr (env_under_of_not_named env h).symm x y
+open Spec in
+theorem shapeEq_eval_basic (b : Basic) (x y : Val) : shapeEq env (.basic b) x y = leafBits x y :=
+  shapeEq_basic rfl x y
+open Spec in
+theorem shapeEq_eval_ptr (R : Ty) (x y : Val) :
+    shapeEq env (.ptr R) x y =
+      match x, y with
+      | .nilv, .nilv => true
+      | .ptr _ a, .ptr _ b => shapeEq env R a b
+      | _, _ => false := shapeEq_ptr rfl x y
+open Spec in
+theorem shapeEq_eval_slice (E : Ty) (x y : Val) :
+    shapeEq env (.slice E) x y =
+      match x, y with
+      | .nilv, .nilv => true
+      | .slice _ _ xs, .slice _ _ ys => seqShape env E xs ys
+      | _, _ => false := shapeEq_slice rfl x y
+open Spec in
+theorem shapeEq_eval_array (n : Nat) (E : Ty) (x y : Val) :
+    shapeEq env (.array n E) x y =
+      match x, y with
+      | .arr xs, .arr ys => seqShape env E xs ys
+      | _, _ => false := shapeEq_array rfl x y
+open Spec in
+theorem shapeEq_eval_struct (fs : Ty) (x y : Val) :
+    shapeEq env (.struct fs) x y =
+      match x, y with
+      | .struct xs, .struct ys => fieldsShape env fs xs ys
+      | _, _ => false := shapeEq_struct rfl x y
+open Spec in
+theorem shapeEq_eval_map (K V : Ty) (x y : Val) :
+    shapeEq env (.map K V) x y =
+      match x, y with
+      | .nilv, .nilv => true
+      | .map _ xs, .map _ ys => entriesMatch env K V xs ys
+      | _, _ => false := shapeEq_map rfl x y
+
 end Eval
 
 /-- evaluate the well-founded model / spec / typing functions on concrete data (`decide` cannot
@@ -91,6 +133,9 @@ macro_rules
         structEq_eval_named, structEq_eval_basic, structEq_eval_ptr, structEq_eval_slice,
         structEq_eval_array, structEq_eval_struct, structEq_eval_map,
         Spec.fieldsEq, Spec.seqEq, Spec.entriesIn, Spec.valueAt, leafEq, fltEq,
+        shapeEq_eval_named, shapeEq_eval_basic, shapeEq_eval_ptr, shapeEq_eval_slice,
+        shapeEq_eval_array, shapeEq_eval_struct, shapeEq_eval_map,
+        Spec.fieldsShape, Spec.seqShape, Spec.entriesMatch, Spec.takeEntry, leafBits,
         Env.under, Env.decl?, Ty.isNamed, Val.slen, basicHasType, intInRange, keysDistinct,
         keyFresh, goEq, canEqual,
         top, field, fields, elems, entries, clone, zfuel, zeroVal, zeroFields, mapGet, mapSet,
@@ -242,6 +287,89 @@ theorem map_into_populated :
   constructor <;> dc_eval [env, tM]
 
 end Ex3
+
+/-! ## A fourth world: NaN leaves and NaN map keys (two entries under the SAME NaN bit pattern) -/
+
+namespace Ex4
+set_option linter.unusedSimpArgs false
+
+/-!
+```go
+type W struct { F float32; M map[float32]*int64 }   // named 0
+```
+-/
+def pI : Ty := .ptr (.basic (.int 64 true))
+def f32 : Ty := .basic (.float 32)
+
+def env : Env := { decls := [
+  { under := .struct (.fcons f32 (.fcons (.map f32 pI) .fnil)), canEq := false } ] }
+
+/-- `*W` -/
+def tW : Ty := .ptr (.named 0)
+
+/-- a quiet NaN of width 32 with payload 1 (`0x7FC00001`) -/
+def nan : Nat := 2143289345
+
+/-- `&W{F: NaN, M: {NaN: &1, NaN: &2, 1.5: nil}}` at addresses 1–4: both NaN keys have the same bits -/
+def src : Val := .ptr 1 (.struct (.scons (.flt 32 nan)
+  (.scons (.map 2 (.scons (.pair (.flt 32 nan) (.ptr 3 (.int 1)))
+    (.scons (.pair (.flt 32 nan) (.ptr 4 (.int 2)))
+    (.scons (.pair (.flt 32 1069547520) .nilv) .snil)))) .snil)))
+
+/-- prior destination `&W{F: 0, M: {NaN: &9}}` at addresses 5–7 -/
+def dst : Val := .ptr 5 (.struct (.scons (.flt 32 0)
+  (.scons (.map 6 (.scons (.pair (.flt 32 nan) (.ptr 7 (.int 9))) .snil)) .snil)))
+
+/-- after `deriveDeepCopy(dst, src)` with the counter at 10: the field `M` is a new map (10) -/
+def res : Val := .ptr 5 (.struct (.scons (.flt 32 nan)
+  (.scons (.map 10 (.scons (.pair (.flt 32 nan) (.ptr 11 (.int 1)))
+    (.scons (.pair (.flt 32 nan) (.ptr 12 (.int 2)))
+    (.scons (.pair (.flt 32 1069547520) .nilv) .snil)))) .snil)))
+
+/-- `deriveClone(src)` with the counter at 10 -/
+def cres : Val := .ptr 10 (.struct (.scons (.flt 32 nan)
+  (.scons (.map 11 (.scons (.pair (.flt 32 nan) (.ptr 12 (.int 1)))
+    (.scons (.pair (.flt 32 nan) (.ptr 13 (.int 2)))
+    (.scons (.pair (.flt 32 1069547520) .nilv) .snil)))) .snil)))
+
+theorem env_flagsOk : env.flagsOk = true := by decide
+theorem supportedCopy : SupportedCopy env tW = true := by dc_eval [env, tW, pI, f32]
+theorem supportedClone : SupportedClone env tW = true := by dc_eval [env, tW, pI, f32]
+theorem nan_isNaN : fltIsNaN 32 nan = true := by decide
+theorem src_typed : hasType env tW src = true := by dc_eval [env, tW, pI, f32, src, nan]
+theorem dst_typed : hasType env tW dst = true := by dc_eval [env, tW, pI, f32, dst, nan]
+theorem src_not_nanFree : nanFree src = false := by decide
+theorem pre : topPre env tW src dst = true := by dc_eval [env, tW, src, dst]
+theorem run : top env tW src dst 10 = .ok (res, 13) := by
+  dc_eval [env, tW, pI, f32, src, dst, res, nan]
+theorem crun : clone env tW src 10 = .ok (cres, 14) := by
+  dc_eval [env, tW, pI, f32, src, cres, nan]
+/-- Go's equality rejects the perfect copy (and the source itself) … -/
+theorem res_not_structEq : Spec.structEq env tW src res = false := by
+  dc_eval [env, tW, pI, f32, src, res, nan]
+theorem src_not_structEq : Spec.structEq env tW src src = false := by
+  dc_eval [env, tW, pI, f32, src, nan]
+/-- … the bit-level one accepts it, and rejects a copy that lost the second NaN entry or holds another
+NaN payload -/
+theorem res_shapeEq : Spec.shapeEq env tW src res = true := by
+  dc_eval [env, tW, pI, f32, src, res, nan]
+def lost : Val := .ptr 5 (.struct (.scons (.flt 32 nan)
+  (.scons (.map 10 (.scons (.pair (.flt 32 nan) (.ptr 11 (.int 1)))
+    (.scons (.pair (.flt 32 1069547520) .nilv) .snil))) .snil)))
+theorem lost_not_shapeEq : Spec.shapeEq env tW src lost = false := by
+  dc_eval [env, tW, pI, f32, src, lost, nan]
+def twice : Val := .ptr 5 (.struct (.scons (.flt 32 nan)
+  (.scons (.map 10 (.scons (.pair (.flt 32 nan) (.ptr 11 (.int 1)))
+    (.scons (.pair (.flt 32 nan) (.ptr 12 (.int 1)))
+    (.scons (.pair (.flt 32 1069547520) .nilv) .snil)))) .snil)))
+theorem twice_not_shapeEq : Spec.shapeEq env tW src twice = false := by
+  dc_eval [env, tW, pI, f32, src, twice, nan]
+theorem src_below : ∀ a ∈ memAddrs src, a < 10 := by decide
+theorem dst_below : ∀ a ∈ memAddrs dst, a < 10 := by decide
+theorem src_dst_disjoint : ∀ a ∈ memAddrs src, a ∉ memAddrs dst := by decide
+theorem dst_tree : (memAddrs dst).Nodup := by decide
+
+end Ex4
 
 end DeepCopy
 end Goderive
